@@ -12,11 +12,34 @@ Open Scope N_scope.
 
 (* the strict entry point only adds checks *)
 Lemma validate_strict_sound orc f d :
-  validate_strict orc f = VOk d -> validate orc f = VOk d /\ boundaries_ok f d = true.
+  validate_strict orc f = VOk d ->
+  validate orc f = VOk d /\ boundaries_ok f d = true /\ filters_doc_ok d = true.
 Proof.
   unfold validate_strict, vbind. destruct (validate orc f) as [d0|]; [|discriminate].
   unfold guard. destruct (boundaries_ok f d0) eqn:E; [|discriminate].
+  destruct (filters_doc_ok d0) eqn:E2; [|discriminate].
   intros H; injection H as <-. auto.
+Qed.
+
+(* what the added check means for every stream object of an accepted file *)
+Lemma filters_doc_ok_spec d : filters_doc_ok d = true ->
+  forall o sd boff len, In o (d_objects d) -> o_body o = BStream sd boff len ->
+    match dict_get n_Filter sd, dict_get n_DecodeParms sd with
+    | None, None => True
+    | Some (OName _), None => True
+    | Some (OName _), Some (ODict _) => True
+    | Some (OArr names), None => forallb is_name names = true
+    | Some (OArr names), Some (OArr pp) =>
+      forallb is_name names = true /\ length pp = length names /\ forallb parm_entry_ok pp = true
+    | _, _ => False
+    end.
+Proof.
+  unfold filters_doc_ok. rewrite forallb_forall. intros H o sd boff len Hin Hb.
+  specialize (H o Hin). rewrite Hb in H. unfold filters_ok, dget in H.
+  destruct (dict_get n_Filter sd) as [[]|]; destruct (dict_get n_DecodeParms sd) as [[]|];
+    try discriminate H; auto.
+  apply andb_true_iff in H as [H H3]. apply andb_true_iff in H as [H1 H2].
+  apply Nat.eqb_eq in H2. auto.
 Qed.
 
 Section ModelWriter.
